@@ -49,7 +49,7 @@ func (e *emitter) add(c Case) {
 		if len(c.Targets) == 0 {
 			c.Targets = []string{"t1", "t2"}
 		}
-		seen, obs := runIngest(c.Targets, c.Ops)
+		seen, obs := runIngest(c.Targets, c.NoEvent, c.Ops)
 		c.Ops, c.Obs = seen, obs
 		term = ingestTerm(nm, c.Targets, seen, obs)
 		stored := false
@@ -88,6 +88,16 @@ func (e *emitter) add(c Case) {
 		term = recvTerm(nm, c.QT, seen, o)
 		e.meta.Hist("recv:" + o.Res)
 		nontrivial = len(o.Evs) > 1
+	case "mgr":
+		seen, obs := runMgr(c.Ops)
+		c.Ops, c.Obs = seen, obs
+		term = mgrTerm(nm, seen, obs)
+		for _, o := range obs {
+			e.meta.Hist("mgr:" + o.Res)
+			if o.Code != 0 {
+				nontrivial = true
+			}
+		}
 	case "cli":
 		seen, o := runCli(c.DT, c.QT, c.TS, c.Ops)
 		c.Ops, c.Obs = seen, o
@@ -102,7 +112,7 @@ func (e *emitter) add(c Case) {
 		K, Q, D string
 		T       bool
 		O       []Op
-	}{c.Kind, c.QT, c.DT, c.TS, c.Ops})
+	}{c.Kind, c.QT, c.DT, c.TS != c.NoEvent, c.Ops})
 	e.meta.Count(c.Family, string(canon), nontrivial, map[string]interface{}{"family": c.Family, "kind": c.Kind, "ops": c.Ops, "obs": c.Obs})
 	if e.cf.Len() >= e.limit {
 		e.flush()
@@ -173,8 +183,16 @@ func main() {
 		e.add(g.randomIngest())
 	}
 	g = &gen{r: r.Fork()}
+	for i := 0; i < 150*scale; i++ {
+		e.add(g.emptyNameIngest())
+	}
+	g = &gen{r: r.Fork()}
 	for i := 0; i < 300*scale; i++ {
 		e.add(g.randomSub())
+	}
+	g = &gen{r: r.Fork()}
+	for i := 0; i < 150*scale; i++ {
+		e.add(Case{Family: "mgr-random", Kind: "mgr", Ops: g.resps(true)})
 	}
 	g = &gen{r: r.Fork()}
 	for i := 0; i < 700*scale; i++ {
